@@ -542,7 +542,8 @@ def check_go(lab_root, ids):
 # -- known generator defects that the default generator avoids and a few probe programs exercise
 
 PROBES = ["typedef_struct", "allcaps_type", "new_prefix_type", "service_name_shape", "allcaps_throws", "transitive",
-          "far_same_name"]
+          "far_same_name", "dfx_allcaps_everywhere", "dfx_extends_shapes", "dfx_throws_names", "dfx_arg_names",
+          "dfx_typedef_import"]
 KNOWN_CLASS = {
     # probe feature -> (target, stage, regex every error line must match, class)
     "probe:typedef_struct": ("go", "wellformed",
